@@ -24,7 +24,7 @@ import (
 func TestVerif_C06_histories(t *testing.T) {
 	mc.Run(t, "C06", func(r *mc.R) {
 		defer debug.SetGCPercent(debug.SetGCPercent(300)) // allocation-heavy, tiny live heap
-		depthK1 := mc.Pick(r, 6, 7)
+		depthK1 := mc.Pick(r, 5, 7)
 		depthK2 := mc.Pick(r, 4, 6)
 		r.Rule("BFS over operation sequences from the empty trie; alphabet = Update(k,v1|v2) x6 keys, Update(k,empty) x6, Delete(k) x6, " +
 			"hash+iterate, getall, copy, commit+reopen (28 ops); a state = (model set, committed set, white-box fingerprint of the live trie: " +
@@ -129,7 +129,7 @@ func TestVerif_C06_batches(t *testing.T) {
 		allBases := mc.Pick(r, false, true)
 		defer debug.SetGCPercent(debug.SetGCPercent(300)) // allocation-heavy, tiny live heap
 		r.Rule("batches: alphabets KB (2-byte keys, 4 root children) and KB32 (32-byte keys) x base set (quick: all 64 subsets x value patterns {alternating: hashed and committed, all long: committed}, KB32 alternating, committed, batches over {skip,v2,empty} only; " +
-			"thorough: all 729 value assignments) x base preparation {fresh, hashed, committed+reopened} x every batch in {skip,v1,v2,empty}^6 (4096) " +
+			"thorough: KB all 729 value assignments hashed and committed plus the 176 patterned bases never hashed, KB32 the 176 patterned bases) x base preparation {fresh, hashed, committed+reopened} x every batch in {skip,v1,v2,empty}^6 (4096) " +
 			"applied with one real UpdateBatch call (goroutines run free; the oracle does not depend on the schedule); plus, for KB with alternating " +
 			"base values, every non-empty batch with a second, different entry for its first key appended (later entry wins); distinct = distinct " +
 			"(alphabet, preparation, base set, resulting set). sets: every one of the 3^6 value assignments of K1,K2,KB,KB32 built by StackTrie " +
@@ -159,9 +159,15 @@ func TestVerif_C06_batches(t *testing.T) {
 				if !allBases && c06AllShort(b) {
 					continue // quick: bases whose whole trie is embedded in the root node are left to thorough
 				}
+				if allBases && a.Name == "KB32" && !c06IsPattern(b) {
+					continue // thorough, 32-byte keys: the 176 patterned bases (values do not change the node structure)
+				}
 				for _, p := range preps {
 					if !allBases && p == "hashed" && (a.Name == "KB32" || !c06Alternating(b)) {
 						continue // quick: the hashed preparation only for KB with alternating values
+					}
+					if allBases && p == "fresh" && !c06IsPattern(b) {
+						continue // thorough: the never-hashed preparation on the 176 patterned bases
 					}
 					shards = append(shards, shard{a, b, p, false})
 				}
